@@ -60,7 +60,7 @@ func runMC(c *core.Ctx, runs []famRun) ([]*Case, *mcStats, error) {
 	}
 	results := make([]result, len(runs))
 	var wg sync.WaitGroup
-	sem := make(chan struct{}, 8)
+	sem := make(chan struct{}, tlcPar())
 	for i, fr := range runs {
 		wg.Add(1)
 		go func(i int, fr famRun) {
